@@ -27,7 +27,7 @@ def strategy(draw, tier="quick"):
     big = draw(st.integers(0, 14)) == 0
     n = draw(st.integers(1000, 4000)) if big else draw(st.integers(3, 64))
     nf = draw(st.integers(2, 5))
-    kind = draw(st.sampled_from(["random", "random", "near", "near", "planar", "collinear", "mirror", "rot180", "rot180"]))
+    kind = draw(st.sampled_from(["random", "random", "near", "near", "planar", "collinear", "mirror", "rot180", "rot180", "smallrot", "smallrot"]))
     case = {"n": n, "nf": nf, "kind": kind, "noise": draw(st.sampled_from([1e-4, 1e-3, 1e-2, 1e-1])),
             "scale": draw(st.sampled_from([0.02, 0.3, 1.0, 3.0])),
             "offset": draw(st.sampled_from([0.0, 0.0, 5.0, 60.0, 500.0])), "seed": draw(st.integers(0, 2 ** 32 - 1)),
@@ -51,6 +51,17 @@ def make(case):
         elif kind == "mirror":
             x = base.copy() if f % 2 == 0 else base * np.array([1.0, 1.0, -1.0])
             x = x + rng.normal(0, 1e-3, (n, 3))
+        elif kind == "smallrot":
+            # rigid copies of one structure turned by 0.01 - 0.5 degrees about random axes (pre-fitted frames): the rotation
+            # matrix differs from the identity in first order off the diagonal, in second order on it
+            th = math.radians([0.0, 0.01, 0.05, 0.1, 0.2, 0.5][(f + case["seed"]) % 6])
+            ax = rng.normal(size=3)
+            ax /= np.linalg.norm(ax)
+            K = np.array([[0, -ax[2], ax[1]], [ax[2], 0, -ax[0]], [-ax[1], ax[0], 0]])
+            Rs = np.eye(3) + math.sin(th) * K + (1 - math.cos(th)) * (K @ K)
+            x = (base + rng.normal(0, case["noise"] * 1e-3, (n, 3))) @ Rs.T
+            frames.append(x + rng.normal(0, 0.01, 3) + case["offset"])
+            continue
         elif kind == "rot180":
             # the frames are copies of one structure turned by (almost) exactly half a turn about a random axis: the optimal
             # rotation between any two of them is 0 or 180 degrees, where the quaternion's scalar part vanishes
@@ -228,7 +239,13 @@ def run_case(case):
             dev = math.sqrt(float(((y[k][ta] - x64[f][ra]) ** 2).sum() / len(ta)))
             # superposition error: rotation error ~ eps * size / conditioning ; generous but far below realistic defects
             size = math.sqrt(S / 2)
-            slack = _tol(r, S, xmax, c) + (2e-3 if c > 300 * max(1.0, math.sqrt(len(ta) / 16.0)) else 2e-4) * size + 32 * oracle.EPS32 * xmax
+            # (the value of md.rmsd near zero is a difference of large numbers and carries _tol; the *rotation* does not: its error
+            # is the eigenvalue error over the spectral gap, ~ c * eps32, so the deviation is off by that angle times the size at most)
+            # Needle-like and planar point sets (near-double root): the eigenvector itself is ill-determined, _tol stays.
+            if c > 300 * max(1.0, math.sqrt(len(ta) / 16.0)):
+                slack = _tol(r, S, xmax, c) + 2e-3 * size + 32 * oracle.EPS32 * xmax
+            else:
+                slack = 2e-4 * size + 32 * oracle.EPS32 * xmax + 1e-7
             if dev > r + slack or dev < r - slack:
                 viol.append(("superpose/not-optimal", "frame %d: unfitted deviation after superpose %.7g, Kabsch minimum %.7g (N=%d)" % (k, dev, r, len(ta))))
                 break
